@@ -1230,7 +1230,7 @@ class Explorer(object):
                     self.solver.pop()
                 if r == z3.unknown:
                     s2 = z3.Solver()
-                    s2.set('timeout', self.query_timeout_ms)
+                    s2.set('timeout', min(self.query_timeout_ms, 150000))
                     s2.add(self.asserted)
                     if extra is not None:
                         s2.add(extra)
@@ -1242,7 +1242,13 @@ class Explorer(object):
                     r = s2.check()
                     m = s2.model() if r == z3.sat else None
                     if r == z3.unknown:
-                        raise Inconclusive("solver returned unknown (%s)" % s2.reason_unknown())
+                        # last resort: the other solver (different heuristics; decisive on some LIA / FP queries z3 gives up on)
+                        why = s2.reason_unknown()
+                        try:
+                            self.stats.queries += 1
+                            r, m = self._check_cvc5(extra)
+                        except Inconclusive as e2:
+                            raise Inconclusive("solver returned unknown (z3: %s; cvc5: %s)" % (why, e2))
         finally:
             dt = time.time() - t
             self.stats.solver_s += dt
